@@ -129,10 +129,10 @@ func TestC14Deployments(t *testing.T) {
 	}, func(rt *rapid.T) {
 		opts := SetGenOpts{AllowClass: true, PoolSize: 4, MaxObjs: 3, MaxPhases: 3, CPs: []string{"", "", "", "IfNoController", "None"}}
 		var a *Scenario
-		switch rapid.IntRange(0, 3).Draw(rt, "family") {
-		case 0:
+		switch rapid.IntRange(0, 4).Draw(rt, "family") {
+		case 0, 1:
 			a = genC08Handover(rt, opts)
-		case 1:
+		case 2:
 			a = genC08Prune(rt, opts)
 		default:
 			a = genDeployWorld(rt, "C14", opts, c09Extra)
@@ -156,10 +156,21 @@ func TestC14Deployments(t *testing.T) {
 		b := cloneScenario(a)
 		sliced := false
 		for ti := range b.Tmpls {
+			// one phase of every template is sliced for sure, the others now and then: revisions mostly mix inline and sliced
+			// phases, as the default chunking strategy produces them (only phases over the size limit are moved out)
+			var nonEmpty []int
 			for pi := range b.Tmpls[ti].Phases {
-				ph := &b.Tmpls[ti].Phases[pi]
-				if len(ph.Objs) > 0 && rapid.IntRange(0, 2).Draw(rt, "slice") == 0 {
-					ph.Sliced = true
+				if len(b.Tmpls[ti].Phases[pi].Objs) > 0 {
+					nonEmpty = append(nonEmpty, pi)
+				}
+			}
+			if len(nonEmpty) == 0 {
+				continue
+			}
+			sure := rapid.SampledFrom(nonEmpty).Draw(rt, "sliceSure")
+			for _, pi := range nonEmpty {
+				if pi == sure || rapid.IntRange(0, 3).Draw(rt, "slice") == 0 {
+					b.Tmpls[ti].Phases[pi].Sliced = true
 					sliced = true
 				}
 			}
